@@ -32,7 +32,8 @@ CLAIMED = {
              "run through lex..generate_ir/link on all token sequences up to a small length, mutated corpus files, faulted "
              "generated programs, token soup, nesting up to depth 256 and 2-3 module sets, in worker processes that classify "
              "ok / err with codes / err with NO codes / panic (with its call site) / crash / internal error. Partial: process "
-             "level behaviour (stack, LLVM aborts, hangs) is exercised, not modelled; lexer totality is not yet a theorem.",
+             "level behaviour (stack, LLVM aborts, hangs) is exercised, not modelled (the lexer model's totality is `Lex.lexer_total`, "
+             "the parser model's `Flat.parse_total`).",
         note="Trusted: Lean kernel, harness worker classification (catch_unwind per request, dead-worker detection, panic hook "
              "recording the call site). Twelve distinct genuine defects of the pinned tree are recorded as known findings, each "
              "identified by its call site (source text of the panic location) or by a causal input class checked by "
